@@ -12,7 +12,8 @@
  "assumes": ["NEEDS the hook in hooks-pending/c07b.diff (named loop anchor VERIF_INV_CHECK_INODE_UNINIT)",
              "what is proved, for ONE arbitrary ghost inode K: when the group exists, group descriptor checksums are in use (GDT_CSUM or METADATA_CSUM) and the group carries EXT2_BG_INODE_UNINIT: exactly the bits of the group's inodes group*ipg+1 .. (group+1)*ipg are cleared in the map (K is unmarked once iff it lies in that range, never otherwise), INODE_UNINIT and BLOCK_UNINIT are cleared, the descriptor checksum is recomputed afterwards, inode bitmap and superblock are marked dirty; otherwise NOTHING is touched. This is the contract 'may only clear bits' used by the new_inode_* units, and more",
              "the group's first inode is taken as the 32-bit value group * s_inodes_per_group + 1 (exact when s_inodes_count = group_desc_count * s_inodes_per_group fits 32 bits, the format's inode number space; stated as: first inode >= 1 and first inode + s_inodes_per_group - 1 <= 2^32 - 1 - a 64-bit product in the assumption leaves the solver with a multiplier equivalence); bitmap and descriptor accessors are stubs that log"],
- "native": false
+ "native": false,
+ "backend": "cvc5"
 }
 */
 #include "verif.h"
@@ -26,24 +27,30 @@ struct in_s IN;
 #include "verif_in.h"
 
 unsigned long long verif_k;
-unsigned long long G_base, G_kunmarks, G_unmarks, G_bad;
+unsigned long long G_base, G_kunmarks, G_unmarks, G_bad, G_first;
 unsigned int G_flags, G_clear_calls, G_csum_calls, G_csum_after_clear;
 const void *G_map;
 
-/* position of the ghost inode relative to the group's first inode, modulo 2^32: K lies in the group iff K_OFFSET < ipg
- * (one unsigned comparison; the two-sided form K >= base && K < base + i over the product group * ipg is hard for SAT) */
-#define K_OFFSET ((unsigned int)((unsigned int)verif_k - (unsigned int)G_base))
+/*
+ * The group's first inode as the CODE sees it is ino - i (loop locals); the stub records the first inode number it is
+ * asked to clear in G_first.  All loop facts are stated relative to that value; that it IS the format's first inode of the
+ * group, group * ipg + 1, is one separate CHECK (the only obligation that has to equate two 32x32 multipliers).
+ * K lies in the group iff (K - first) mod 2^32 < ipg: one unsigned comparison.
+ */
+#define K_OFFSET_FROM(first) ((unsigned int)((unsigned int)verif_k - (unsigned int)(first)))
 #define VERIF_INV_CHECK_INODE_UNINIT \
-	__CPROVER_assigns(i, ino, G_kunmarks, G_unmarks, G_bad) \
-	__CPROVER_loop_invariant(i <= fs->super->s_inodes_per_group && ino == (ext2_ino_t)(G_base + i) && G_unmarks == i && !G_bad) \
-	__CPROVER_loop_invariant(G_kunmarks == (K_OFFSET < i ? 1 : 0)) \
+	__CPROVER_assigns(i, ino, G_kunmarks, G_unmarks, G_bad, G_first) \
+	__CPROVER_loop_invariant(i <= fs->super->s_inodes_per_group && G_unmarks == i && !G_bad) \
+	__CPROVER_loop_invariant((ext2_ino_t)(ino - i) == __CPROVER_loop_entry(ino) && (i == 0 || G_first == (ext2_ino_t)(ino - i))) \
+	__CPROVER_loop_invariant(G_kunmarks == (K_OFFSET_FROM(ino - i) < i ? 1 : 0)) \
 	__CPROVER_decreases(fs->super->s_inodes_per_group - i)
 
 #include "lib/ext2fs/alloc.c"
 
 int ext2fs_unmark_generic_bmap(ext2fs_generic_bitmap bitmap, __u64 arg)
 {
-	if ((const void *)bitmap != G_map || arg != (unsigned int)(G_base + G_unmarks)) G_bad = 1;
+	if (G_unmarks == 0) G_first = arg;
+	if ((const void *)bitmap != G_map || arg != (unsigned int)(G_first + G_unmarks)) G_bad = 1;
 	G_unmarks++;
 	if (arg == verif_k) G_kunmarks++;
 	return 0;
@@ -74,7 +81,7 @@ void h_check_inode_uninit(void)
 	G_base = (unsigned int)(IN.group * IN.ipg) + 1u;
 	/* the group's inodes G_base .. G_base + ipg - 1 exist in the 32-bit inode number space */
 	ASSUME(G_base >= 1 && G_base + IN.ipg - 1 <= 0xffffffffULL);
-	G_kunmarks = G_unmarks = G_bad = 0;
+	G_kunmarks = G_unmarks = G_bad = G_first = 0;
 	G_flags = IN.flags0 & 0xffff;
 	G_clear_calls = G_csum_calls = G_csum_after_clear = 0;
 	verif_k = IN.k & 0xffffffffULL;	/* inode numbers are 32 bit */
@@ -86,7 +93,8 @@ void h_check_inode_uninit(void)
 	CHECK(!G_bad, "only the given map, inodes in ascending order from the group's first inode");
 	if (act) {
 		CHECK(G_unmarks == IN.ipg, "one unmark per inode of the group");
-		CHECK(G_kunmarks == (K_OFFSET < IN.ipg ? 1u : 0u), "an inode's bit is cleared iff it belongs to the group (first inode <= K <= first inode + ipg - 1)");
+		CHECK(G_first == G_base, "the first inode cleared is the group's first inode group * ipg + 1");
+		CHECK(G_kunmarks == (K_OFFSET_FROM(G_first) < IN.ipg ? 1u : 0u), "an inode's bit is cleared iff it is one of the ipg inodes from the first one on (first <= K <= first + ipg - 1)");
 		CHECK((G_flags & 0x0003u) == 0 && (G_flags & ~0x0003u) == (IN.flags0 & 0xffff & ~0x0003u), "INODE_UNINIT and BLOCK_UNINIT cleared, other flags kept");
 		CHECK(G_csum_after_clear, "the descriptor checksum is recomputed after the flags changed");
 		CHECK(FS.flags == (IN.fsflags0 | EXT2_FLAG_IB_DIRTY | EXT2_FLAG_DIRTY | EXT2_FLAG_CHANGED), "inode bitmap and superblock marked dirty");
